@@ -22,6 +22,12 @@ CLAIMED = {
     text='For every field of every record kind in the four format tables the real write_values_to_string is driven over the stated value lattice (reals sign x exponent -120..120 x 6 mantissas, integers at and one past the width, names of every length, absent values) with populated or absent neighbours; each produced line is cut by column offsets recomputed from the spec strings and every field compared with what was written (exact for fitting values; reduced precision or a loud failure for over-wide ones; neighbours always intact), and the real parse_string must agree with the own slicing. Thorough walks the whole lattice (exhaustive for that lattice); quick samples the exponent axis. Boundary values also go through the public t2incon/mulgrid/t2data writers and readers with a probe re-slicing every record written in situ.',
     note='Trusted: C-style % formatting as the definition of the nominal text; own layout parser in vf/oracle/columns.py. Over-long names are outside the quantifier and are not judged. The format tables themselves are taken as given (a wrong table is C01/C03/C13 matter).',
     design='DESIGN.md §3 C02'),
+
+ 'C14': dict(
+    technique='runtime identity monitor on returned values: inverse pairs, finite-difference single-potential identities, boundary-jump and Clausius-Clapeyron consistency, region classifier vs own transcription of the IF97 region definition',
+    text='The real IAPWS97 routines are evaluated on dense grids and random states in every region and on both sides of every region boundary; oracles use only returned values (no coefficient is read): tsat/sat and b23t/b23p must invert each other, (d,u) must satisfy the Maxwell-type identity of a single potential by central differences, density must rise with pressure, viscosity must be positive (including exactly at the critical density/temperature), jumps across the 1-3 and 2-3 boundaries must stay within the IF97 consistency tolerances, the Clausius-Clapeyron relation must tie sat, cowat and supst together, and region() must equal an own transcription of the release definition away from the boundary curves. Exploration over sampled states; the largest residual of every identity is recorded in the evidence.',
+    note='Trusted: the IF97 region definition and B23 equation as transcribed in vf/props/c14.py; finite-difference resolution (thresholds are 50-500x above the residuals observed on the unchanged tree). A coefficient change that leaves the formulation self-consistent and within boundary tolerances is not a violation of this property and is not detected here (C15 cross-checks against IFC-67).',
+    design='DESIGN.md §3 C14'),
 }
 
 def main():
